@@ -1149,6 +1149,13 @@ class Suspender(Interrupter):
 
         framer = main.framer #to speed up
 
+        if aux.done and aux.active and aux.main is self._act.frame:
+            # marked done from outside of its own run while still entered by
+            # this frame so clean up as if it had completed in its last run
+            self.deactivate(aux)
+            framer.reactivate()
+            return None
+
         if aux.done: #not active
 
             console.profuse("Attempt segue from {0} to aux {1}\n".format(main.name, aux.name))
@@ -1208,8 +1215,8 @@ class Suspender(Interrupter):
         console.terse("Suspender {0}\n".format(self.name))
 
     def deactivize(self, aux, **kwa):
-        """ If not aux.done Then force deactivate. Used in exit action."""
-        if not aux.done:
+        """ If aux still entered by this frame Then force deactivate. Used in exit action."""
+        if aux.active and aux.main is self._act.frame:  # done may already be set
             console.profuse("{0} deactivate {1}\n".format(self.name, aux.name))
             self.deactivate(aux)
 
